@@ -83,6 +83,25 @@ func verrTag(err error) string {
 
 func tvName(vk uint8) string { return vhdr.VKNames[vk] }
 
-func itoa(i int) string      { return strconv.Itoa(i) }
-func itoa64(i int64) string  { return strconv.FormatInt(i, 10) }
-func utoa(u uint64) string   { return strconv.FormatUint(u, 10) }
+func itoa(i int) string     { return strconv.Itoa(i) }
+func itoa64(i int64) string { return strconv.FormatInt(i, 10) }
+func utoa(u uint64) string  { return strconv.FormatUint(u, 10) }
+
+// corpus: /verif/corpus/<prop>/*.case — minimised past failures, run first.
+func loadCorpus(prop string) []string {
+	dir := os.Getenv("VERIF_CORPUS")
+	if dir == "" {
+		dir = "/verif/corpus"
+	}
+	ents, err := os.ReadDir(dir + "/" + prop)
+	if err != nil {
+		return nil
+	}
+	var outp []string
+	for _, e := range ents {
+		if b, err := os.ReadFile(dir + "/" + prop + "/" + e.Name()); err == nil {
+			outp = append(outp, string(b))
+		}
+	}
+	return outp
+}
